@@ -60,6 +60,11 @@ static void fail(const char *cls, const char *fmt, ...)
     violation(sig, cur_case, "%s [%s]", detail, cur_case);
 }
 
+/* crash attribution: a library call that faults (e.g. an aligned vector access on an unaligned
+ * buffer) is reported as that case's outcome by the guarding parent, and the case is skipped
+ * in the restarted child */
+#define GUARDED(call) do { char sb_[120]; snprintf(sb_, sizeof(sb_), "C09/%s", cur_fn); if (!guard_enter(sb_, cur_case)) { call; guard_leave(); } } while (0)
+
 /* after a call: memcheck errors, canaries */
 static void after_call(int nreg, const int *regs, uint8_t *const *ptrs, const size_t *lens)
 {
@@ -102,7 +107,7 @@ static void run_single(void)
             at = (ai * 7 + ao * 3) & 31;
             tw = place(2, at, 8, TW);
             snprintf(cur_case, sizeof(cur_case), "c09 single %d in+%d out+%d tweak+%d", f, ai, ao, at);
-            sb_call(f, out, in, tw);
+            GUARDED(sb_call(f, out, in, tw));
             ptrs[0] = in; ptrs[1] = out; ptrs[2] = tw; lens[0] = bs; lens[1] = bs; lens[2] = 8;
             after_call(3, regs, ptrs, lens);
             memcpy(got, out, bs);
@@ -118,7 +123,7 @@ static void run_single(void)
             buf = place(0, ai, span, img);
             in = buf + (d < 0 ? -d : 0); out = buf + (d > 0 ? d : 0);
             snprintf(cur_case, sizeof(cur_case), "c09 overlap %d out=in%+d align+%d", f, d, ai);
-            sb_call(f, out, in, TW);
+            GUARDED(sb_call(f, out, in, TW));
             p1[0] = buf; l1[0] = span;
             after_call(1, regs1, p1, l1);
             if (memcmp(out, ref, bs) != 0) fail("overlap", "output overlapping the input at offset %+d gives a different result", d);
@@ -137,13 +142,13 @@ static void run_setup_args(void)
         uint8_t *k = place(0, a, len, KEY);
         cur_fn = "skinny128_set_key"; snprintf(cur_case, sizeof(cur_case), "c09 set_key128 len=%u key+%d", len, a);
         memset(&t128, 0, sizeof(t128)); memset(&r128, 0, sizeof(r128));
-        LIB(skinny128_set_key(&t128.ks, k, len)); ptrs[0] = k; lens[0] = len; after_call(1, regs, ptrs, lens);
+        GUARDED(LIB(skinny128_set_key(&t128.ks, k, len))); ptrs[0] = k; lens[0] = len; after_call(1, regs, ptrs, lens);
         skinny128_set_key(&r128.ks, KEY, len);
         if (memcmp(&t128, &r128, sizeof(t128))) fail("result-depends-on-alignment", "schedule differs from the aligned call");
         if (len <= 32) {
             k = place(0, a, len, KEY);
             cur_fn = "skinny128_set_tweaked_key"; memset(&t128, 0, sizeof(t128)); memset(&r128, 0, sizeof(r128));
-            LIB(skinny128_set_tweaked_key(&t128, k, len)); ptrs[0] = k; after_call(1, regs, ptrs, lens);
+            GUARDED(LIB(skinny128_set_tweaked_key(&t128, k, len))); ptrs[0] = k; after_call(1, regs, ptrs, lens);
             skinny128_set_tweaked_key(&r128, KEY, len);
             if (memcmp(&t128, &r128, sizeof(t128))) fail("result-depends-on-alignment", "schedule differs from the aligned call");
         }
@@ -153,13 +158,13 @@ static void run_setup_args(void)
         uint8_t *k = place(0, a, len, KEY);
         cur_fn = "skinny64_set_key"; snprintf(cur_case, sizeof(cur_case), "c09 set_key64 len=%u key+%d", len, a);
         memset(&t64, 0, sizeof(t64)); memset(&r64, 0, sizeof(r64));
-        LIB(skinny64_set_key(&t64.ks, k, len)); ptrs[0] = k; lens[0] = len; after_call(1, regs, ptrs, lens);
+        GUARDED(LIB(skinny64_set_key(&t64.ks, k, len))); ptrs[0] = k; lens[0] = len; after_call(1, regs, ptrs, lens);
         skinny64_set_key(&r64.ks, KEY, len);
         if (memcmp(&t64, &r64, sizeof(t64))) fail("result-depends-on-alignment", "schedule differs from the aligned call");
         if (len <= 16) {
             k = place(0, a, len, KEY);
             cur_fn = "skinny64_set_tweaked_key"; memset(&t64, 0, sizeof(t64)); memset(&r64, 0, sizeof(r64));
-            LIB(skinny64_set_tweaked_key(&t64, k, len)); ptrs[0] = k; after_call(1, regs, ptrs, lens);
+            GUARDED(LIB(skinny64_set_tweaked_key(&t64, k, len))); ptrs[0] = k; after_call(1, regs, ptrs, lens);
             skinny64_set_tweaked_key(&r64, KEY, len);
             if (memcmp(&t64, &r64, sizeof(t64))) fail("result-depends-on-alignment", "schedule differs from the aligned call");
         }
@@ -170,13 +175,13 @@ static void run_setup_args(void)
     for (len = 1; len <= 16; ++len) for (a = 0; a < 32; ++a) {
         uint8_t *t = place(0, a, len, TWEAK);
         cur_fn = "skinny128_set_tweak"; snprintf(cur_case, sizeof(cur_case), "c09 set_tweak128 len=%u tweak+%d", len, a);
-        r128 = t128; LIB(skinny128_set_tweak(&t128, t, len)); ptrs[0] = t; lens[0] = len; after_call(1, regs, ptrs, lens);
+        r128 = t128; GUARDED(LIB(skinny128_set_tweak(&t128, t, len))); ptrs[0] = t; lens[0] = len; after_call(1, regs, ptrs, lens);
         skinny128_set_tweak(&r128, TWEAK, len);
         if (memcmp(&t128, &r128, sizeof(t128))) fail("result-depends-on-alignment", "schedule differs from the aligned call");
         if (len <= 8) {
             t = place(0, a, len, TWEAK);
             cur_fn = "skinny64_set_tweak";
-            r64 = t64; LIB(skinny64_set_tweak(&t64, t, len)); ptrs[0] = t; after_call(1, regs, ptrs, lens);
+            r64 = t64; GUARDED(LIB(skinny64_set_tweak(&t64, t, len))); ptrs[0] = t; after_call(1, regs, ptrs, lens);
             skinny64_set_tweak(&r64, TWEAK, len);
             if (memcmp(&t64, &r64, sizeof(t64))) fail("result-depends-on-alignment", "schedule differs from the aligned call");
         }
@@ -186,11 +191,11 @@ static void run_setup_args(void)
         uint8_t *k = place(0, a, 16, KEY), *t;
         cur_fn = "mantis_set_key"; snprintf(cur_case, sizeof(cur_case), "c09 mantis key+%d", a);
         memset(&m1, 0, sizeof(m1)); memset(&m2, 0, sizeof(m2));
-        LIB(mantis_set_key(&m1, k, 16, 6, a & 1)); ptrs[0] = k; lens[0] = 16; after_call(1, regs, ptrs, lens);
+        GUARDED(LIB(mantis_set_key(&m1, k, 16, 6, a & 1))); ptrs[0] = k; lens[0] = 16; after_call(1, regs, ptrs, lens);
         mantis_set_key(&m2, KEY, 16, 6, a & 1);
         t = place(0, a, 8, TWEAK);
         cur_fn = "mantis_set_tweak";
-        LIB(mantis_set_tweak(&m1, t, 8)); ptrs[0] = t; lens[0] = 8; after_call(1, regs, ptrs, lens);
+        GUARDED(LIB(mantis_set_tweak(&m1, t, 8))); ptrs[0] = t; lens[0] = 8; after_call(1, regs, ptrs, lens);
         mantis_set_tweak(&m2, TWEAK, 8);
         if (memcmp(&m1, &m2, sizeof(m1))) fail("result-depends-on-alignment", "schedule differs from the aligned call");
         distinct_add_u64(fnv1a(cur_case, strlen(cur_case), 9));
@@ -253,7 +258,7 @@ static void run_bulk(void)
                 snprintf(cur_case, sizeof(cur_case), "c09 ctr %s %s len=%zu in+%d out+%d %s", cipher_name((Cipher)c), be_name(be), n, ai, ao, mode == 2 ? "aliased" : "");
                 in = place(0, ai, n, DATA);
                 if (mode == 2) out = in; else out = place(1, ao, n, NULL);
-                ctr_encrypt((Cipher)c, &o, out, in, n);
+                GUARDED(ctr_encrypt((Cipher)c, &o, out, in, n));
                 ptrs[0] = in; ptrs[1] = out; ls[0] = n; ls[1] = n;
                 after_call(mode == 2 ? 1 : 2, regs, ptrs, ls);
                 memcpy(got, out, n);
@@ -280,7 +285,7 @@ static void run_bulk(void)
                 in = place(0, ai, n, DATA);
                 out = mode ? in : place(1, ao, n, NULL);
                 tw = place(2, (ai * 5 + ao) & 31, c == CK_MANTIS ? n : 1, TW);
-                par_crypt((Cipher)c, &o, out, in, tw, n, dir);
+                GUARDED(par_crypt((Cipher)c, &o, out, in, tw, n, dir));
                 ptrs[0] = in; ptrs[1] = out; ptrs[2] = tw; ls[0] = n; ls[1] = n; ls[2] = c == CK_MANTIS ? n : 1;
                 if (mode) { ptrs[1] = tw; ls[1] = ls[2]; regs[1] = 2; after_call(2, regs, ptrs, ls); } else after_call(3, regs, ptrs, ls);
                 memcpy(got, out, n);
@@ -300,9 +305,8 @@ static void __attribute__((noinline)) ctl_copy(uint8_t *dst, const uint8_t *src,
     sink = src[n]; (void)sink;
 }
 
-int main(int argc, char **argv)
+static void body(void)
 {
-    parse_opts(argc, argv);
     lcg_fill(KEY, 48, 1); lcg_fill(TWEAK, 16, 2); lcg_fill(CTRV, 16, 3); memset(CTRV, 0xFF, 9); lcg_fill(DATA, sizeof(DATA), 4); lcg_fill(TW, sizeof(TW), 5);
     if (RUNNING_ON_VALGRIND) {
         uint8_t *in = place(0, 3, 10, DATA), *out = place(1, 0, 10, NULL); unsigned long e0 = VALGRIND_COUNT_ERRORS;
@@ -317,5 +321,10 @@ int main(int argc, char **argv)
     if (!g_opts.sub || !strcmp(g_opts.sub, "bulk")) run_bulk();
     sample_add("skinny128_ecb_encrypt with input at +17, output at +5 inside NOACCESS red zones; overlap out=in-3");
     sample_add("skinny128_ctr_encrypt on v256, 257 bytes, input at +11, output at +5; exactly aliased at +31");
-    return finish();
+}
+
+int main(int argc, char **argv)
+{
+    parse_opts(argc, argv);
+    return mc_guarded_main(body);
 }
